@@ -65,8 +65,12 @@ def verify(pid, letter):
 
 
 def main():
-    ids = sys.argv[1:] or [f"C{i:02d}" for i in range(1, 18)]
-    jobs = [(p, l) for p in ids for l in "AB"]
+    args = sys.argv[1:]
+    letters = "AB"
+    if args and args[0].startswith("--letters="):
+        letters = args.pop(0).split("=", 1)[1]
+    ids = args or [f"C{i:02d}" for i in range(1, 18)]
+    jobs = [(p, l) for p in ids for l in letters]
     with ThreadPoolExecutor(6) as ex:
         for pid, letter, status, info in ex.map(lambda a: verify(*a), jobs):
             print(pid, letter, status, {k: v for k, v in info.items() if k != "demo_output_with_change"})
